@@ -322,7 +322,7 @@ Definition C20_summary_check (data : list Z) (obs : option summary) : bool :=
       match data with
       | [] => true
       | _ => is_median2 data (s_med4 s / 2) && (s_med4 s mod 2 =? 0)
-             && (s_q1_4 s <=? s_med4 s) && (s_med4 s <=? s_q3_4 s)
+             && (Nat.ltb (length data) 2 || ((s_q1_4 s <=? s_med4 s) && (s_med4 s <=? s_q3_4 s)))
              && (s_iqr4 s =? s_q3_4 s - s_q1_4 s)
              && (2 * s_lf4 s =? 2 * s_q1_4 s - 3 * s_iqr4 s) && (2 * s_uf4 s =? 2 * s_q3_4 s + 3 * s_iqr4 s)
       end
